@@ -504,11 +504,20 @@ def daemon_main(fb):
     return ms[0] if ms else None
 
 
+THREAD_SPAWNS = ('thread::spawn', 'thread::Builder::spawn', 'thread::Builder::spawn_unchecked', 'thread::builder::Builder::spawn',
+                 'thread::builder::Builder::spawn_unchecked')
+
+
+def is_thread_spawn(nm):
+    """std::thread::spawn or the named-thread form std::thread::Builder::spawn (the closure is the last argument)"""
+    return nm.endswith(THREAD_SPAWNS)
+
+
 def thread_manager(fb):
     """the daemon function that spawns the worker threads (semantic anchor: calls std::thread::spawn, is reached from
     the binary's main), whatever module it lives in"""
     def find():
-        is_spawn = lambda nm: nm.endswith('thread::spawn')
+        is_spawn = is_thread_spawn
         mb = daemon_main(fb)
         if mb is not None:
             # the entry point main hands control to: a daemon-library function main calls that (transitively) spawns threads
